@@ -109,6 +109,23 @@ def evaluate(syms, mods, counters=None, deep=True):
         except Exception as ex:
             return None, ex
 
+    # (0) both engines in one process, each handed the very same string (what `test`/`grep` do with a pattern
+    #     argument): the engine that sees the string second must still compile it by its own rules
+    if not lead and not trail:
+        try:
+            v1p.compile_pattern(pattern)
+        except Exception:
+            pass
+        try:
+            rx0 = v2p.compile_pattern(pattern).regexp
+            c("cross_engine_checks")
+            hay0 = "zq " + body + " qz"
+            m0 = rx0.search(hay0)
+            if m0 is None or m0.span() != (hay0.find(body), hay0.find(body) + len(body)):
+                problems.append(("cross-engine", f"pattern {pattern!r} compiled by the legacy engine first, then by v2: "
+                                                 f"v2 regex {rx0.pattern!r} on {hay0!r}: {m0.span() if m0 else None}"))
+        except Exception as ex:
+            problems.append(("compile", f"pattern {pattern!r} does not compile: {ex!r}"))
     # (1) all-literal pattern, with and without anchors
     for variant, p, t, a_lead, a_trail in (("plain", pattern, body, lead, trail),):
         rx, err = compile_v2(p)
@@ -221,6 +238,16 @@ def evaluate(syms, mods, counters=None, deep=True):
         lp = pattern + "{MAJOR}.{MINOR}"
         lt = pattern + "12.3"   # in legacy patterns a backslash and brackets are literal characters
         try:
+            try:
+                v2p.compile_pattern(lp)       # v2 first, then the legacy engine on the same string
+            except Exception:
+                pass
+            rxc = v1p.compile_pattern(lp).regexp
+            hayc = "zq " + lt
+            mc = rxc.search(hayc)
+            if mc is None or mc.span() != (hayc.find(lt), hayc.find(lt) + len(lt)):
+                problems.append(("cross-engine", f"legacy pattern {lp!r} compiled by v2 first, then by the legacy engine: "
+                                                 f"regex {rxc.pattern!r} on {hayc!r}: {mc.span() if mc else None}"))
             rx = v1p._compile_pattern_re(lp)
             c("legacy_checks")
             for pr in contracts.regex_structure_problems(lp, rx.pattern, legacy=True):
